@@ -22,6 +22,28 @@ CHECKS = {
                      "request up to the capacity (top 70 sizes + random) must be granted at once; unbounded: n <= max granted after at most one switch. "
                      "The unchanged tree failed this (reader position published in batches); repaired by a fix: commit, check stays armed.",
                 note="liveness is judged in logical steps (quiescent probes / backend idle cycles), never in seconds"),
+    "C12": dict(cat="exploration", ref="6/C12", tech="runtime monitoring: per-call differential of PatternFormatter::format against an independent pattern substitution (dbg + ASan/UBSan)",
+                text="Real PatternFormatter driven directly with generated valid patterns (random subset/order of the 16 attributes, fill/align/width/precision specs, "
+                     "literal text, hostile attribute values, run-time MacroMetadata) and compared per call with an independent reference substitution; invalid "
+                     "patterns must throw at construction. Multi-line handling is judged end to end once the e2e family 'lines' is registered.",
+                note="bundled fmt is the trusted base for applying one spec to one value; empty pattern = documented 'formatting disabled', not judged"),
+    "C13": dict(cat="exploration", ref="6/C13", tech="runtime monitoring: per-call differential of TimestampFormatter against libc strftime over generated patterns, zones and instant sequences (dbg + ASan/UBSan)",
+                text="Real TimestampFormatter/StringFromTime vs gmtime_r/localtime_r + strftime per call: ~10^7 calls per quick run over random patterns, 16 zones (all "
+                     "tz database zones in the thorough tier), GMT and local mode, walks/repeats/backward jumps and walks across second, minute, hour, noon, "
+                     "midnight, quarter-hour and the zone's own DST transitions. Found and repaired three defects (stale %c/%E/%O fields, repeated %Q specifier, "
+                     "off-grid DST changes); one recorded finding (literal %% before r R T X Q).",
+                note="libc + installed tz database + C locale are the reference"),
+    "C14": dict(cat="exploration", ref="6/C14", tech="runtime monitoring: offline directory/file-content oracle over RotatingFileSink runs with restarts (dbg + ASan/UBSan)",
+                text="Real RotatingFileSink driven in scratch directories over random configurations, statement sizes aimed at the limit, colliding timestamps and "
+                     "0-4 process restarts; after every restart an oracle reads the directory: whole statements, one file each, order across files by the naming "
+                     "scheme, only permitted deletions (a prefix), size bound, backup count (=min(rotations observed, backups) from a clean start), planted files "
+                     "untouched. Two recorded findings (append-mode restarts with date based naming).",
+                note="universe protected from unexplained loss = statements since the last 'w' start; timestamps non-decreasing across restarts"),
+    "C15": dict(cat="exploration", ref="6/C15", tech="runtime monitoring: offline oracle comparing which file each statement landed in with an independent rotation schedule",
+                text="Same harness with minutely/hourly/daily rotation, GMT/local zones, combined with size and backup limits: statements separated by a scheduled "
+                     "point never share a file, statements without a point between them do, rotated files carry their opening moment, plus the C14 oracle. "
+                     "The unchanged tree drifted off the schedule; repaired by a fix: commit.",
+                note="local daily rotation is judged on days without DST transition; a restart re-anchors the schedule"),
 }
 
 NOT_YET = "check not built yet in this revision (design in DESIGN.md section 6); not claimed until its harness exists"
